@@ -1,4 +1,4 @@
-import UralModel.Lemmas.C03
+import UralModel.Lemmas.C03Fp
 /-!
 # C03 — canonicalize_url ⊑ normalize_url ⊑ fingerprint_url
 
@@ -14,7 +14,7 @@ parser returned (`Parsed`); that the printed canonical URL is parsed back into i
 `c03_lower`) and covered by the oracle, which works on the strings.
 -/
 namespace Ural.Props.C03
-open Ural Ural.Py Ural.UrlParts Ural.Quote Ural.Canonicalize Ural.Normalize Ural.C03
+open Ural Ural.Py Ural.UrlParts Ural.Quote Ural.Canonicalize Ural.Normalize Ural.Fingerprint Ural.C03
 
 /-! ## table obligations -/
 
@@ -37,42 +37,38 @@ def FullNormalizeCanonicalize (puny : Str → Str) : Prop :=
 /-- **factorisation**: `normalize_url` reads a parsed URL only through its canonical components:
 `normParts = N ∘ canonComps` with `N := normParts ∘ reparse` (the re-parse of the printed
 canonical URL).  Unquoted mode; `strip_protocol`, `strip_authentication`,
-`strip_trailing_slash` on (the defaults), all other options free; whatever scheme
-canonicalisation assumed for a scheme-less input.  Excluded (explicit, decidable, each really
-fails — see the witnesses below): an `&amp;` hidden behind an escape (`MistakeStable`), a
-punycode hostname that ends like a per-domain-filtered domain (`DomainStable`). -/
+`strip_trailing_slash` on (the defaults), every other documented option free; whatever scheme
+canonicalisation assumed for a scheme-less input. -/
 theorem normalize_factors_of_pathHyp (puny : Str → Str) (hp : PunyLaws puny) (hPH : PathHyp)
     (o : Opts) (hsp : o.stripProtocol = true) (hsa : o.stripAuthentication = true)
-    (hsts : o.stripTrailingSlash = true) (hq : o.quoted = false) (p : Parsed) (s0 : Str)
-    (hDS : DomainStable puny p.hostname) (hMS : o.fixCommonMistakes = true → MistakeStable p.query)
-    (b b' : Bool) :
+    (hsts : o.stripTrailingSlash = true) (hq : o.quoted = false) (hlc : o.lowercase = false)
+    (p : Parsed) (hAbs : absP p.path = true) (s0 : Str) (b b' : Bool) :
     normParts puny o b p =
       normParts puny o b' (reparse (canonComps puny false false { p with scheme := s0 })) :=
-  (normParts_reparse_canon puny hp hPH o hsp hsa hsts hq p _ s0 (reparses_reparse _) hDS hMS b b').symm
+  (normParts_reparse_canon puny hp hPH o hsp hsa hsts hq hlc p _ hAbs s0 (reparses_reparse _) b b').symm
 
 /-- **(c1)** `normalize_url(canonicalize_url(u)) == normalize_url(u)`, on components: what
 `normalize_url` computes from ANY re-parse `p'` of the canonical components of `p` is what it
-computes from `p` -/
+computes from `p`.  (`_partial`: unquoted mode, a path that is empty or starts with `/` — every
+URL with an authority —; `platform_aware` and the redirect step act on
+the string before parsing and are outside this statement.) -/
 theorem normalize_canonicalize_partial_of_pathHyp (puny : Str → Str) (hp : PunyLaws puny)
     (hPH : PathHyp) (o : Opts) (hsp : o.stripProtocol = true) (hsa : o.stripAuthentication = true)
-    (hsts : o.stripTrailingSlash = true) (hq : o.quoted = false) (p p' : Parsed) (s0 : Str)
-    (hR : Reparses (canonComps puny false false { p with scheme := s0 }) p')
-    (hDS : DomainStable puny p.hostname) (hMS : o.fixCommonMistakes = true → MistakeStable p.query)
-    (b b' : Bool) :
+    (hsts : o.stripTrailingSlash = true) (hq : o.quoted = false) (hlc : o.lowercase = false)
+    (p p' : Parsed) (hAbs : absP p.path = true) (s0 : Str)
+    (hR : Reparses (canonComps puny false false { p with scheme := s0 }) p') (b b' : Bool) :
     normParts puny o b' p' = normParts puny o b p :=
-  normParts_reparse_canon puny hp hPH o hsp hsa hsts hq p p' s0 hR hDS hMS b b'
+  normParts_reparse_canon puny hp hPH o hsp hsa hsts hq hlc p p' hAbs s0 hR b b'
 
 /-- **(a)** two parsed URLs with the same canonical components have the same normalized form -/
 theorem normalize_of_canon_eq_partial_of_pathHyp (puny : Str → Str) (hp : PunyLaws puny)
     (hPH : PathHyp) (o : Opts) (hsp : o.stripProtocol = true) (hsa : o.stripAuthentication = true)
-    (hsts : o.stripTrailingSlash = true) (hq : o.quoted = false) (p₁ p₂ : Parsed)
-    (hc : canonComps puny false false p₁ = canonComps puny false false p₂)
-    (hDS₁ : DomainStable puny p₁.hostname) (hDS₂ : DomainStable puny p₂.hostname)
-    (hMS₁ : o.fixCommonMistakes = true → MistakeStable p₁.query)
-    (hMS₂ : o.fixCommonMistakes = true → MistakeStable p₂.query) (b₁ b₂ : Bool) :
+    (hsts : o.stripTrailingSlash = true) (hq : o.quoted = false) (hlc : o.lowercase = false)
+    (p₁ p₂ : Parsed) (hAbs₁ : absP p₁.path = true) (hAbs₂ : absP p₂.path = true)
+    (hc : canonComps puny false false p₁ = canonComps puny false false p₂) (b₁ b₂ : Bool) :
     normParts puny o b₁ p₁ = normParts puny o b₂ p₂ := by
-  have h1 := normalize_factors_of_pathHyp puny hp hPH o hsp hsa hsts hq p₁ p₁.scheme hDS₁ hMS₁ b₁ true
-  have h2 := normalize_factors_of_pathHyp puny hp hPH o hsp hsa hsts hq p₂ p₂.scheme hDS₂ hMS₂ b₂ true
+  have h1 := normalize_factors_of_pathHyp puny hp hPH o hsp hsa hsts hq hlc p₁ hAbs₁ p₁.scheme b₁ true
+  have h2 := normalize_factors_of_pathHyp puny hp hPH o hsp hsa hsts hq hlc p₂ hAbs₂ p₂.scheme b₂ true
   rw [h1, h2]
   have e1 : ({ p₁ with scheme := p₁.scheme } : Parsed) = p₁ := rfl
   have e2 : ({ p₂ with scheme := p₂.scheme } : Parsed) = p₂ := rfl
@@ -92,27 +88,30 @@ theorem normalize_host_factors (puny : Str → Str) (hp : PunyLaws puny) (o : Op
     normHost puny o (if h.isEmpty then h else canonHost puny h) = normHost puny o h :=
   normHost_canon puny hp o h
 
-/-- query clause: the items that are filtered and sorted are the items of the canonical query -/
+/-- query clause: the items that are filtered and sorted are the items of the canonical query,
+and the canonical query is its own canonical query (so `&amp;` is repaired in the same string) -/
 theorem normalize_query_factors (q : Str) :
     unquoteQsl (safeQslIter (canonQuery false q)) = unquoteQsl (safeQslIter q) ∧
-    (canonQuery false q).isEmpty = q.isEmpty :=
-  ⟨items_canonQuery q, canonQuery_isEmpty q⟩
+    (canonQuery false q).isEmpty = q.isEmpty ∧
+    canonQuery false (canonQuery false q) = canonQuery false q :=
+  ⟨items_canonQuery q, canonQuery_isEmpty q, canonQuery_idem q⟩
 
-/-! ### the excluded regions really fail (replayed on the implementation: KF-C03-3, KF-C03-4) -/
+/-! ### regression witnesses: the two defects this property found (fixed in /repo 5606787,
+2bbc628) stay fixed in the model -/
 
-/-- `?x=1&a%6Dp;y=2`: the canonical query is `x=1&amp;y=2`, which is repaired to `x=1&y=2`; the
-query itself is not repaired and keeps the item `amp;y=2` -/
-example : ¬ MistakeStable "x=1&a%6Dp;y=2".toList := by decide
-
+/-- `?x=1&a%6Dp;y=2`: the `&amp;` hidden behind an escape is repaired like the plain one -/
 example :
-    unquoteQsl (safeQslIter (fixCommonQueryMistakes (canonQuery false "x=1&a%6Dp;y=2".toList)))
-      ≠ unquoteQsl (safeQslIter (fixCommonQueryMistakes "x=1&a%6Dp;y=2".toList)) := by decide
+    filterQuery {} none (fixQ {} "x=1&a%6Dp;y=2".toList) = filterQuery {} none (fixQ {} "x=1&amp;y=2".toList) ∧
+    filterQuery {} none (fixQ {} "x=1&a%6Dp;y=2".toList) = [("x".toList, some "1".toList), ("y".toList, some "2".toList)] := by
+  decide +kernel
 
 /-- a decoder sending `xn--bbfacebook` to a non-ASCII label (as the idna codec does): the filter
-of `facebook.com` is chosen for the encoded spelling only -/
+of `facebook.com` is not chosen for the encoded spelling -/
 example :
     let puny : Str → Str := fun l => if l = "xn--bbfacebook".toList then "ᢑᢖ".toList else l
-    ¬ DomainStable puny (some "xn--bbfacebook.com".toList) := by decide
+    domainFilter (filterHost puny (some "xn--bbfacebook.com".toList)) = none ∧
+    (domainFilter (filterHost puny (some "www.facebook.com".toList))).isSome = true := by
+  decide +kernel
 
 /-! ### non-vacuity: a URL with userinfo, `www.`, a default port, dot segments, an index file,
 escaped letters, a tracking item, `&amp;`, unsorted items and a fragment -/
@@ -123,11 +122,116 @@ example :
         path := "/x/%2E%2E/%41/index.html".toList, query := "utm_source=1&b=%42&amp;a=1".toList,
         fragment := "top".toList, username := some "U".toList, password := some "P".toList,
         hostname := some "www.a.com".toList, port := some 80 }
-    DomainStable id p.hostname ∧ MistakeStable p.query ∧
     normParts id {} true p =
       { scheme := [], netloc := "a.com".toList, path := "/A".toList, query := "a=1&b=B".toList,
         fragment := some [] } ∧
     normParts id {} true (reparse (canonComps id false false p)) = normParts id {} true p := by
+  decide +kernel
+
+/-! ## (b), (c2): `fingerprint_url` from `normalize_url` -/
+
+/-- the second pass of `fingerprint_url` reads of `normalize_url`'s result: the netloc, and path,
+query and fragment up to letter case — nothing else -/
+theorem fingerprint_second_pass (E : Env) (ss : Bool) (r₁ r₂ : Split)
+    (h : r₁.netloc = r₂.netloc ∧ lower r₁.path = lower r₂.path ∧ lower r₁.query = lower r₂.query ∧
+      r₁.fragment.map lower = r₂.fragment.map lower) :
+    fpParts E ss r₁ = fpParts E ss r₂ :=
+  fpParts_view E ss r₁ r₂ (by simp [fpView, h.1, h.2.1, h.2.2.1, h.2.2.2])
+
+/-- every item `normalize_url`'s filter strips, `fingerprint_url`'s filter strips; and for an
+item that passed the former, the latter does not look at the per-domain filter any more (only
+`gl` / `hl` are left to strip) -/
+theorem fingerprint_filter_absorbs (amp : Bool) (df : Option (List String)) (it : QItem) :
+    (shouldStripQueryItem amp .none df it = true → shouldStripQueryItem amp .lang df it = true) ∧
+    (shouldStripQueryItem amp .none df it = false →
+      shouldStripQueryItem amp .lang df it = shouldStripQueryItem amp .lang none it) :=
+  ⟨filter_absorb amp .lang df it, strip_lang_df_irrelevant amp df it⟩
+
+/-- the full statement of (b) on components: the parse of the lower-cased string is
+`lowerParsed` of the parse (CPython; driver line `c03_lower`) -/
+def FullFingerprintOfNormalizeEq : Prop :=
+  ∀ (E : Env) (ss : Bool) (p q : Parsed) (b₁ b₂ b₃ b₄ : Bool),
+    normParts E.puny {} b₁ p = normParts E.puny {} b₂ q →
+    fpParts E ss (normParts E.puny fpOpts b₃ (lowerParsed p)) =
+      fpParts E ss (normParts E.puny fpOpts b₄ (lowerParsed q))
+
+/-- **(b)** two parsed URLs with the same normalized form have the same fingerprint — PARTIAL:
+for inputs on which lower-casing has nothing to do (`LowerInput`: the URL as parsed, and what
+its escapes decode to, are lower-case).  Under `SortHyp` (the query sort depends only on the
+multiset of items).  Outside that class the statement is FALSE (next example) or explored by
+the oracle only. -/
+theorem fingerprint_of_normalize_eq_partial_of_sortHyp (hS : SortHyp) (E : Env) (ss : Bool)
+    (p q : Parsed) (hLp : LowerInput p) (hLq : LowerInput q) (b₁ b₂ b₃ b₄ : Bool)
+    (h : normParts E.puny {} b₁ p = normParts E.puny {} b₂ q) :
+    fpParts E ss (normParts E.puny fpOpts b₃ (lowerParsed p)) =
+      fpParts E ss (normParts E.puny fpOpts b₄ (lowerParsed q)) :=
+  fp_of_norm_eq_lower hS E ss p q hLp hLq b₁ b₂ b₃ b₄ h
+
+/-- on a lower-case input the inner call of `fingerprint_url` is `normalize_url`'s result with
+the query passed through the `gl` / `hl` filter: same netloc, path, fragment -/
+theorem fingerprint_inner_call_of_sortHyp (hS : SortHyp) (puny : Str → Str) (p : Parsed)
+    (hL : LowerInput p) (b b' : Bool) :
+    (normParts puny fpOpts b' (lowerParsed p)).netloc = (normParts puny {} b p).netloc ∧
+    (normParts puny fpOpts b' (lowerParsed p)).path = (normParts puny {} b p).path ∧
+    (normParts puny fpOpts b' (lowerParsed p)).fragment = (normParts puny {} b p).fragment ∧
+    ∃ Q, (normParts puny {} b p).query = safeSerializeQsl Q ∧
+      (normParts puny fpOpts b' (lowerParsed p)).query = safeSerializeQsl (fpItems true Q) := by
+  obtain ⟨h1, h2, h3, Q, h4, _, h5⟩ :=
+    normParts_fp_of_lower hS puny {} rfl rfl rfl rfl rfl rfl rfl rfl p hL b b'
+  exact ⟨h1, h2, h3, Q, h4, h5⟩
+
+/-- **(c2)** `fingerprint_url(canonicalize_url(u)) == fingerprint_url(u)`, on components —
+PARTIAL: `p` and the re-parse `p'` of its canonical components both in the lower-case class -/
+theorem fingerprint_canonicalize_partial_of_hyps (hS : SortHyp) (hPH : PathHyp) (E : Env)
+    (hp : PunyLaws E.puny) (ss : Bool) (p p' : Parsed) (hAbs : absP p.path = true) (s0 : Str)
+    (hR : Reparses (canonComps E.puny false false { p with scheme := s0 }) p')
+    (hLp : LowerInput p) (hLp' : LowerInput p') (b b' : Bool) :
+    fpParts E ss (normParts E.puny fpOpts b' (lowerParsed p')) =
+      fpParts E ss (normParts E.puny fpOpts b (lowerParsed p)) :=
+  fp_of_norm_eq_lower hS E ss p' p hLp' hLp true true b' b
+    (normParts_reparse_canon E.puny hp hPH {} rfl rfl rfl rfl rfl p p' hAbs s0 hR true true)
+
+/-! ### the excluded region of (b) really fails (replayed on the implementation: KF-C03-6)
+
+`/Index.html` and `/Index.html/index.html` have the same normalized form (the index test is
+case-sensitive, and strips one segment), but once lower-cased the first loses its only segment
+and the second keeps `/index.html`. -/
+
+def witnessP (path : String) : Parsed :=
+  { scheme := "http".toList, netloc := "a.com".toList, path := path.toList, query := [], fragment := [],
+    username := none, password := none, hostname := some "a.com".toList, port := none }
+
+example :
+    normParts id {} true (witnessP "/Index.html") = normParts id {} true (witnessP "/Index.html/index.html") ∧
+    lower (normParts id fpOpts true (lowerParsed (witnessP "/Index.html"))).path = [] ∧
+    lower (normParts id fpOpts true (lowerParsed (witnessP "/Index.html/index.html"))).path
+      = "/index.html".toList ∧
+    ¬ LowerInput (witnessP "/Index.html") := by
+  decide +kernel
+
+/-- so the full statement does not hold of the model -/
+theorem not_fullFingerprintOfNormalizeEq : ¬ FullFingerprintOfNormalizeEq := by
+  intro h
+  let E : Env :=
+    { puny := id, parse := fun _ => none, platform := id,
+      netlocAcc := fun nl => .ok { username := none, password := none, hostname := some nl, port := none },
+      walkHost := fun h => .ok (some h), trie := SNode.empty, isCC := fun _ => false }
+  have h1 := h E false (witnessP "/Index.html") (witnessP "/Index.html/index.html") true true true true
+    (by decide +kernel)
+  have h2 := congrArg (fun r => match r with | .ok s => s.path | .error _ => []) h1
+  revert h2
+  decide +kernel
+
+/-! ### non-vacuity of (b): a lower-case URL with a tracking item and a `gl` item -/
+
+example :
+    let p : Parsed :=
+      { scheme := "http".toList, netloc := "www.a.com".toList, path := "/x/index.html".toList,
+        query := "gl=fr&b=2&utm_source=1&a=%61".toList, fragment := [], username := none,
+        password := none, hostname := some "www.a.com".toList, port := none }
+    LowerInput p ∧
+    (normParts id {} true p).query = "a=a&b=2&gl=fr".toList ∧
+    (normParts id fpOpts true (lowerParsed p)).query = "a=a&b=2".toList := by
   decide +kernel
 
 end Ural.Props.C03
